@@ -15,7 +15,7 @@ from ..dag import T, walk, show, deep_inline, simplify
 from ..model import FunctionInfo, AnalysisError, dotted
 from ..report import Ctx
 from ..tensor import Typer, kwarg_t, const_int
-from ..util import norm, fn_body_nodes, walk_local, kwarg
+from ..util import cmp_views, norm, fn_body_nodes, walk_local, kwarg
 from ..pat import Snips
 from .common import arg_permutation_rule, names_in, calls_named
 from .c07 import items_loop_info, enclosing_loops
@@ -111,13 +111,13 @@ def rule_backup(ctx: Ctx, typer: Typer):
     bv, new_bv, bb = R.get("bv"), R.get("new_bv"), R.get("bb")
     if brk:
         t = brk[0].test
-        ok = isinstance(t, ast.Compare) and isinstance(t.ops[0], ast.Lt) and ast.unparse(t.comparators[0]) == eps
-        ctx.check(ok, "STOP-1", f, brk[0], f"backup stops when the value change is below {eps}", "", f"stop test is `{norm(t)}`")
-        dl = _assigns_in(lp, t.left.id) if isinstance(t, ast.Compare) and isinstance(t.left, ast.Name) else []
+        dv = [l for l, op, r in cmp_views(t) if op == "<" and r == eps and l.isidentifier()]
+        ctx.check(bool(dv), "STOP-1", f, brk[0], f"backup stops when the value change is below {eps}", "", f"stop test is `{norm(t)}`")
+        dl = _assigns_in(lp, dv[0]) if dv else []
         ok = False
         if dl and bv and new_bv and bb:
             # delta = np.abs(old_v - new_v).max(), old_v / new_v = values of the belief set under the current / the new alpha vectors
-            env0 = {"delta": t.left.id, "bv": bv, "new_bv": new_bv, "bb": bb}
+            env0 = {"delta": dv[0], "bv": bv, "new_bv": new_bv, "bb": bb}
             for diff in ("old_v - new_v", "new_v - old_v"):
                 if S.solve([f"delta = np.abs({diff}).max()", "old_v = np.einsum(E_s1, bv, bb)", "new_v = np.einsum(E_s2, new_bv, bb)"], env0, within=lp):
                     ok = True
